@@ -730,8 +730,10 @@ def clones_with_zero_limits(ctx, db):
     db.AddCategory("c12 source below zero", "temperature", default_unit="degC", min_value=-50.0, max_value=-5.0, default_value=-7.0)
     k = 0
     for src, kws in (
-        ("c12 source", [{"min_value": 0.0}, {"min_value": 0.0, "default_value": 0.0}, {"min_value": 0, "is_min_exclusive": True}, {"min_value": -0.0, "max_value": 8.0}, {"min_value": 0.0, "default_value": 0.5, "default_unit": "cm"}]),
-        ("c12 source below zero", [{"max_value": 0.0}, {"max_value": 0.0, "default_value": 0.0}, {"max_value": 0, "is_max_exclusive": True}, {"max_value": 0.0, "min_value": -100.0}]),
+        ("c12 source", [{"min_value": 0.0}, {"min_value": 0.0, "default_value": 0.0}, {"min_value": 0, "is_min_exclusive": True}, {"min_value": -0.0, "max_value": 8.0}, {"min_value": 0.0, "default_value": 0.5, "default_unit": "cm"},
+                        # only the strictness of an inherited limit is given
+                        {"is_min_exclusive": True}, {"is_max_exclusive": True}, {"is_min_exclusive": True, "is_max_exclusive": True}, {"is_min_exclusive": True, "max_value": 60.0}]),
+        ("c12 source below zero", [{"max_value": 0.0}, {"max_value": 0.0, "default_value": 0.0}, {"max_value": 0, "is_max_exclusive": True}, {"max_value": 0.0, "min_value": -100.0}, {"is_max_exclusive": True}, {"is_min_exclusive": True, "max_value": 0.0}]),
     ):  # fmt: skip
         sinfo = db.GetCategoryInfo(src)
         for kw in kws:
@@ -751,7 +753,10 @@ def clones_with_zero_limits(ctx, db):
                 ctx.violation("clone-reports-other-limits-than-it-was-registered-with", dict(case, registered=[want_min, want_max], reports=[info.min_value, info.max_value]))
             du = info.default_unit
             mn_ex, mx_ex = bool(info.is_min_exclusive), bool(info.is_max_exclusive)
-            for x in (-60.0, -7.0, -1.0, -0.0, 0.0, 0.5, 1.0, 6.0, 7.0, 9.0, 60.0):
+            if "is_min_exclusive" in kw and bool(info.is_min_exclusive) != kw["is_min_exclusive"] or "is_max_exclusive" in kw and bool(info.is_max_exclusive) != kw["is_max_exclusive"]:
+                ctx.violation("clone-reports-another-strictness-than-it-was-registered-with", dict(case, reports=[info.is_min_exclusive, info.is_max_exclusive]))
+            mn_ex, mx_ex = bool(kw.get("is_min_exclusive", sinfo.is_min_exclusive)), bool(kw.get("is_max_exclusive", sinfo.is_max_exclusive))
+            for x in (-60.0, -50.0, -7.0, -5.0, -1.0, -0.0, 0.0, 0.5, 1.0, 5.0, 6.0, 7.0, 9.0, 50.0, 60.0):
                 ok = (x > want_min if mn_ex else x >= want_min) and (x < want_max if mx_ex else x <= want_max)
                 ctx.ev()
                 ctx.nt(("clone", name, x))
